@@ -757,3 +757,66 @@ def rule_ddblock_extent(ctx):
                              "the position it computes lies inside the DD block" % (r[:90], consts, HDR_SZ))
     ctx.floor("DDBLOCKSZ", 4, n, "(offset sums over DD_SZ-sized descriptors)")
     return n
+
+
+class _EndExt(PathAnalysis):
+    """user = frozenset of: 'E' FILE_END_DIRTY or-ed into file_rec->dirty, 'W' something written (HP_write seen not failing is not
+    required: a failing write leaves through the fail exit), 'Z' the amount is known not to be positive, 'A' f_end_off advanced"""
+
+    def __init__(self, prog, amount):
+        super().__init__(prog)
+        self.amount = amount
+        self.exits = []
+
+    def init_user(self, func):
+        return frozenset()
+
+    def on_stmt(self, func, bid, idx, stmt, env, user):
+        u = set(user)
+        for n in walk(stmt["e"]):
+            if n[0] == "asg" and mem_field(n[2]) == ("filerec_t", "dirty") and n[1] in ("|=", "=") and is_int(n[3]) and int_val(n[3]) & 2:
+                u.add("E")
+            elif n[0] == "call" and n[1] == "HP_write":
+                u.add("W")
+            elif n[0] == "asg" and n[1] == "+=" and mem_field(n[2]) == ("filerec_t", "f_end_off"):
+                u.add("A")
+        return frozenset(u)
+
+    def on_assume(self, func, bid, cond, pol, env, user):
+        c = strip(cond)
+        if kind(c) == "bin" and c[1] == ">" and kind(strip(c[2])) == "var" and strip(c[2])[1] == self.amount and is_int(c[3], 0) and not pol:
+            return frozenset(set(user) | {"Z"})
+        return user
+
+    def on_exit(self, func, bid, retval, env, user):
+        self.exits.append((classify_ret(retval, self.fails), user))
+
+
+def rule_end_extension(ctx):
+    """ENDEXT (C02, C17): space is allocated by advancing `f_end_off`.  Every descriptor written later may point into that space, so
+    the file must really become that long: a function that advances f_end_off by a positive amount either writes at the new end
+    itself or records FILE_END_DIRTY, which makes HIsync extend the file before the descriptors are flushed.  Otherwise a file can be
+    closed with descriptors that reach past its end."""
+    prog = ctx.prog
+    n = 0
+    for f in prog.lib_funcs():
+        adv = [x for _b, _i, _s, x in f.nodes(True) if x[0] == "asg" and x[1] == "+=" and mem_field(x[2]) == ("filerec_t", "f_end_off")]
+        if not adv:
+            continue
+        amt = strip(adv[0][3])
+        n += 1
+        key = "ENDEXT:%s" % f.name
+        a = _EndExt(prog, amt[1] if kind(amt) == "var" else None)
+        a.fails = fail_values(f, prog)
+        a.run(f)
+        bad = [u for cls, u in a.exits if cls != "fail" and "A" in u and not (u & {"E", "W", "Z"})]
+        ok = [u for cls, u in a.exits if cls != "fail" and "A" in u]
+        if not ok:
+            ctx.unrecognised("ENDEXT", key, f.where(), "no non-failing path advances f_end_off")
+        elif bad:
+            ctx.violated("ENDEXT", key, f.where(adv[0][4]), "a non-failing path advances f_end_off by a positive amount without writing at the new end and without setting FILE_END_DIRTY: "
+                         "the file is never extended over the reserved space, and descriptors written later reach past the end of the file")
+        else:
+            ctx.holds("ENDEXT", key, f.where(adv[0][4]), "every non-failing path that advances f_end_off writes at the new end or sets FILE_END_DIRTY (or the amount is 0)", nontrivial=True)
+    ctx.floor("ENDEXT", 1, n, "(functions that advance f_end_off)")
+    return n
